@@ -213,22 +213,17 @@ Example C08_attr_nonvacuous :
   construct_community [CPair 65001 1; CWk 4294967041] = Ok [192; 8; 8; 253; 233; 0; 1; 255; 255; 255; 1].
 Proof. vm_compute. auto. Qed.
 
-(** AS_PATH, full statement: false for the code as it is (the segment-type test of
-    ASPath.construct is `assert <exception object>`, which never fires) *)
-Definition C08_aspath_valid_statement : Prop := forall asn4 ap cr segs b,
-  construct_aspath asn4 segs = Ok b -> valid_attrs (mkw asn4 ap cr) b = true.
-Theorem C08_aspath_refuted : exists segs b,
-  construct_aspath false segs = Ok b /\ valid_attrs cfg0 b = false.
-Proof. exact aspath_bad_segment_type. Qed.
-Print Assumptions C08_aspath_refuted.
-(** proved under the exact guard "every segment type is one of 1..4" (the guard disappears once
-    build/proposed/c08-aspath-segment-type.diff is applied and the model raises for other types);
-    covers the 1-octet and the extended (2-octet, flag bit 16) length forms *)
-Theorem C08_aspath_valid_partial : forall asn4 ap cr segs b,
-  Forall (fun s => 1 <= fst s <= 4) segs ->
+(** AS_PATH, full strength: every AS_PATH that ASPath.construct returns is structurally valid, in
+    the 1-octet and the extended (2-octet, flag bit 16) length forms.  (ASPath.construct now rejects
+    a segment type outside 1..4 - fix: reject an undefined AS_PATH segment type when constructing -
+    so the former refuted witness [(5, [1])] is a construction error and the guard is gone.) *)
+Theorem C08_aspath_valid : forall asn4 ap cr segs b,
   construct_aspath asn4 segs = Ok b -> valid_attrs (mkw asn4 ap cr) b = true.
 Proof. exact construct_aspath_valid. Qed.
-Print Assumptions C08_aspath_valid_partial.
+Print Assumptions C08_aspath_valid.
+Example C08_aspath_bad_type_is_error :
+  construct_aspath false [(5, [1])] = Err c_ERR_MSG_UPDATE c_ERR_MSG_UPDATE_MALFORMED_ASPATH.
+Proof. vm_compute. reflexivity. Qed.
 Example C08_aspath_nonvacuous :
   construct_aspath false [(2, [65001; 65002])] = Ok [64; 2; 6; 2; 2; 253; 233; 253; 234] /\
   (exists b, construct_aspath true [(2, repeat 7 64)] = Ok (80 :: 2 :: 1 :: 2 :: b)).
